@@ -15,7 +15,7 @@ class Spec:
     function plus its definitional axiom, instantiated at the ground applications that occur in a VC (fuel-bounded)
     and also supplied as a quantified axiom with the application as trigger."""
 
-    def __init__(self, src, types, ret, registry=None):
+    def __init__(self, src, types, ret, registry=None, opaque=False):
         self.src = src
         fn = ast.parse(src.strip()).body[0]
         assert isinstance(fn, ast.FunctionDef)
@@ -28,8 +28,9 @@ class Spec:
             body = body[1:]
         assert len(body) == 1 and isinstance(body[0], ast.Return), "spec body must be a single return"
         self.body = body[0].value
-        self.recursive = any(isinstance(n, ast.Call) and isinstance(n.func, ast.Name) and n.func.id == self.name
-                             for n in ast.walk(self.body))
+        # opaque specs are kept as function symbols (definition supplied as an axiom) so that terms stay small
+        self.recursive = opaque or any(isinstance(n, ast.Call) and isinstance(n.func, ast.Name) and n.func.id == self.name
+                                       for n in ast.walk(self.body))
         self._decl = None
         self.all_specs = None     # set by Registry
 
@@ -113,8 +114,8 @@ class Registry:
         self.uses[c.key] = list(use_lemmas)
         return c
 
-    def spec(self, src, types, ret):
-        s = Spec(src, types, ret)
+    def spec(self, src, types, ret, opaque=False):
+        s = Spec(src, types, ret, opaque=opaque)
         self.specs[s.name] = s
         return s
 
